@@ -125,7 +125,7 @@ pub fn parsegen(prop: &str, seed: u64, runs: usize) -> Vec<J> {
                 "A B\n0 0 C\n", "A\n(1 ! 2)\n", "A\nlet a = 1 ~ 2;\n1\n", "A\nprogram(1)\n", "A\ninit x;\n", "A\nmemory m;\n", "A\ndef f\n", "A\ncall f\n", "", " ", "\n", "\n\n\n", "A", "A B", "A\n",
                 "A\r\n", "A A\n", "A\n(", "A\n(1", "A\nbits(", "A\nbits(1", "A\nbits(1,", "A\nloop(", "A\nloop(i", "A\nloop(i,", "A\nloop(i,1", "A\nloop(i,1)", "A\nloop(i,1)\n", "A\nrepeat(",
                 "A\nrepeat(1)", "A\nwhile(1)\n", "A\nend", "A\nend loop", "A\nlet", "A\nlet a", "A\nlet a =", "A\nlet a = 1", "A\ndeclare", "A\ndeclare a = 1;", "A\nrandom(", "A\n(random(1", "A\n(ite(1,2", "é\n1\n",
-                "A\n(é)\n", "A\n1 é\n", "A\n\u{1F600}\n", "A\n(a\u{0663})\n", "A\n0 C C C\n", "A\nC\nC C\n", "A\nbits(99999999999999999999,1)\n", "A\n(99999999999999999999)\n", "A\n#\n", "#A\n1\n",
+                "A\n(é)\n", "A\n1 é\n", "A\n\u{1F600}\n", "A\n(a\u{0663})\n", "A\n0 C C C\n", "A\nC\nC C\n", "A\nbits(99999999999999999999,1)\n", "A B\nbits(2,3) C\n", "A B C\nbits(3,1) C C\n", "A B\n1 bits(2,1) C\n", "A\nbits(0,1) 1 C\n", "A B\nbits(257,5) 1\n", "A\nbits(256,5) 1\n", "A\n(99999999999999999999)\n", "A\n#\n", "#A\n1\n",
             ] {
                 push(&mut out, prop, t, None, 0, "fixed");
             }
@@ -208,24 +208,30 @@ pub fn parsegen(prop: &str, seed: u64, runs: usize) -> Vec<J> {
                         }
                         (Some(m), "truncate")
                     }
-                    7 => (pick(&mut rng, &["DecInt", "OctInt"]).map(|s| replace(s, *["9223372036854775808", "18446744073709551616", "0xFFFFFFFFFFFFFFFFF"].choose(&mut rng).unwrap())), "literal too large"),
+                    7 => (pick(&mut rng, &["DecInt", "OctInt"]).map(|s| replace(s, *["9223372036854775808", "18446744073709551616", "0xFFFFFFFFFFFFFFFFF", "0x8000000000000000", "0XFFFFFFFFFFFFFFFF",
+                        "0b1000000000000000000000000000000000000000000000000000000000000000", "01000000000000000000000", "01777777777777777777777", "0x10000000000000000"].choose(&mut rng).unwrap())), "literal too large"),
                     8 => (pick(&mut rng, &["Ident"]).filter(|s| matches!(&text[s.0..s.1], "ite" | "random")).map(|s| replace(s, "foo")), "unknown function"),
                     9 => {
                         // arity: add an argument to a call
                         let idx = body.iter().position(|t| t.0 == "Ident" && matches!(&text[t.1..t.2], "ite" | "random"));
                         (idx.and_then(|i| body.get(i + 1)).map(|lp| replace((lp.2, lp.2), "1,")), "arity + 1")
                     }
-                    10 => (pick(&mut rng, &["Bits"]).map(|s| replace((s.1, s.1), "")).map(|t| t.replacen("bits(2", "bits(65", 1)), "bits width 65"),
+                    10 => {
+                        let w = *["65", "66", "128", "255", "256", "257", "320", "1000", "65537", "4294967297", "0x101", "0b100000001"].choose(&mut rng).unwrap();
+                        // the rest of the row is adapted to the width the literal would have after a wrap-around to 8 bits
+                        (pick(&mut rng, &["Bits"]).map(|_| text.replacen("bits(2", &format!("bits({w}"), 1)).filter(|t| t != &text), "bits width above 64")
+                    }
                     11 => {
                         // one entry too many / too few in a data row: add a literal at the end of a random line that is a row
                         let lines: Vec<&str> = text.lines().collect();
                         let rows: Vec<usize> = printed.line_of.values().cloned().collect();
                         rows.choose(&mut rng).map(|&ln| {
                             let mut ls: Vec<String> = lines.iter().map(|l| l.to_string()).collect();
-                            if rng.gen_bool(0.5) {
-                                ls[ln - 1].push_str(" 1");
-                            } else {
-                                ls[ln - 1] = format!("X {}", ls[ln - 1]);
+                            match rng.gen_range(0..4) {
+                                0 => ls[ln - 1].push_str(" 1"),
+                                1 => ls[ln - 1].push_str(" C"),
+                                2 => ls[ln - 1].push_str(" C C"),
+                                _ => ls[ln - 1] = format!("X {}", ls[ln - 1]),
                             }
                             (ls.join("\n") + "\n", ())
                         })
@@ -269,6 +275,25 @@ pub fn parsegen(prop: &str, seed: u64, runs: usize) -> Vec<J> {
             }
         }
         "C20" => {
+            // a literal that does not fit in 64 bits is rejected in every radix (the verdict is layout-independent)
+            let big: [(&str, [&str; 5]); 4] = [
+                ("2^63", ["9223372036854775808", "0x8000000000000000", "0X8000000000000000", "0b1000000000000000000000000000000000000000000000000000000000000000", "01000000000000000000000"]),
+                ("2^64-1", ["18446744073709551615", "0xffffffffffffffff", "0XFFFFFFFFFFFFFFFF", "0B1111111111111111111111111111111111111111111111111111111111111111", "01777777777777777777777"]),
+                ("2^64", ["18446744073709551616", "0x10000000000000000", "0X10000000000000000", "0b10000000000000000000000000000000000000000000000000000000000000000", "02000000000000000000000"]),
+                ("2^63-1", ["9223372036854775807", "0x7fffffffffffffff", "0X7FFFFFFFFFFFFFFF", "0b111111111111111111111111111111111111111111111111111111111111111", "0777777777777777777777"]),
+            ];
+            for (gi, (_, spellings)) in big.iter().enumerate() {
+                for ctx in 0..3 {
+                    for sp in spellings {
+                        let t = match ctx {
+                            0 => format!("A\n{sp}\n"),
+                            1 => format!("A\n({sp} + 1)\n"),
+                            _ => format!("A\nlet a = {sp};\n(a)\n"),
+                        };
+                        push(&mut out, prop, &t, None, 100_000 + gi * 3 + ctx, "oversized literal");
+                    }
+                }
+            }
             for g in 1..=runs {
                 let s: u64 = top.gen();
                 let (header, prog) = valid_program(s);
